@@ -91,49 +91,74 @@ theorem C18_list_dirs_never_empty_segment (env : Env) :
     (∀ d ∈ sysDataDirs env, d ≠ []) ∧ (∀ d ∈ sysConfigDirs env, d ≠ []) :=
   ⟨Lemmas.listOr_ne_nil env _ _ (by decide), Lemmas.listOr_ne_nil env _ _ (by decide)⟩
 
-/-! ### vfs.config_dir(name): first hit in the order XDG_CONFIG_HOME (or its default), XDG_CONFIG_DIRS -/
-def C18_config_dir_first_hit_full : Prop :=
-  ∀ (env : Env) (ex : Str → Bool) (name : Str),
-    vfsConfigDir env ex name =
-      ((match configDir env with | .ok c => [c] | _ => []) ++ sysConfigDirs env).find? (fun d => ex (mash d name))
+/-! ### vfs.config_dir(name): first hit in the order XDG_CONFIG_HOME (or its default), XDG_CONFIG_DIRS
+    (repaired code: holds for EVERY environment) -/
 
-theorem C18_config_dir_first_hit_partial (env : Env) (ex : Str → Bool) (name : Str) (c : Str)
-    (hc : configDir env = .ok c) :
-    vfsConfigDir env ex name = (c :: sysConfigDirs env).find? (fun d => ex (mash d name)) := by
-  unfold vfsConfigDir
-  rw [hc]
+/-- the lookup order, read off the environment: `$XDG_CONFIG_HOME` when set, else `$HOME/.config`
+    when `$HOME` is set, else no user directory; then the `XDG_CONFIG_DIRS` list
+    (`C18_sys_config_dirs`: its non-empty segments, default `/etc/xdg`) -/
+def configSearchOrder (env : Env) : List Str :=
+  (match env (var "XDG_CONFIG_HOME") with
+    | some x => [x]
+    | none => match env (var "HOME") with
+      | some h => [mash h (var ".config")]
+      | none => []) ++ sysConfigDirs env
+
+/-- the user entry of the order is exactly `config_dir()` when that succeeds, and absent otherwise -/
+theorem C18_config_search_order_user (env : Env) :
+    configSearchOrder env = (match configDir env with | .ok c => [c] | _ => []) ++ sysConfigDirs env := by
+  have h := Lemmas.homeOr_eq env "XDG_CONFIG_HOME" (fun h => mash h (v ".config"))
+  unfold configSearchOrder configDir var
+  rw [h]
+  cases env "XDG_CONFIG_HOME".toList with
+  | some x => rfl
+  | none => cases env "HOME".toList <;> rfl
+
+/-- full strength, every environment: the result is the first directory of the order containing `name` -/
+theorem C18_config_dir_first_hit (env : Env) (ex : Str → Bool) (name : Str) :
+    vfsConfigDir env ex name = (configSearchOrder env).find? (fun d => ex (mash d name)) := by
+  rw [C18_config_search_order_user]
+  exact Lemmas.vfsConfigDir_eq env ex name
 
 /-- characterisation of the first hit -/
-theorem C18_config_dir_some_iff (env : Env) (ex : Str → Bool) (name c d : Str) (hc : configDir env = .ok c) :
+theorem C18_config_dir_some_iff (env : Env) (ex : Str → Bool) (name d : Str) :
     vfsConfigDir env ex name = some d ↔
-      ∃ pre post, c :: sysConfigDirs env = pre ++ d :: post ∧ ex (mash d name) = true ∧
+      ∃ pre post, configSearchOrder env = pre ++ d :: post ∧ ex (mash d name) = true ∧
         ∀ d' ∈ pre, ex (mash d' name) = false := by
-  rw [C18_config_dir_first_hit_partial env ex name c hc, List.find?_eq_some_iff_append]
-  constructor
-  · rintro ⟨h1, pre, post, h2, h3⟩
-    exact ⟨pre, post, h2, h1, fun d' hd' => by simpa using h3 d' hd'⟩
-  · rintro ⟨pre, post, h2, h1, h3⟩
-    exact ⟨h1, pre, post, h2, fun d' hd' => by simpa using h3 d' hd'⟩
+  rw [C18_config_dir_first_hit]
+  exact Lemmas.find?_some_iff_split _ _ _
 
-theorem C18_config_dir_none_iff (env : Env) (ex : Str → Bool) (name c : Str) (hc : configDir env = .ok c) :
-    vfsConfigDir env ex name = none ↔ ∀ d ∈ c :: sysConfigDirs env, ex (mash d name) = false := by
-  rw [C18_config_dir_first_hit_partial env ex name c hc, List.find?_eq_none]
-  constructor
-  · intro h d hd; simpa using h d hd
-  · intro h d hd; simpa using h d hd
+/-- `None` iff no directory of the order contains `name` -/
+theorem C18_config_dir_none_iff (env : Env) (ex : Str → Bool) (name : Str) :
+    vfsConfigDir env ex name = none ↔ ∀ d ∈ configSearchOrder env, ex (mash d name) = false := by
+  rw [C18_config_dir_first_hit]
+  exact Lemmas.find?_none_iff_all_false _ _
 
-/-- finding: with HOME and XDG_CONFIG_HOME both unset the system directories are never consulted -/
-theorem C18_finding_no_home_hides_system_dirs :
-    vfsConfigDir (fun _ => none) (fun _ => true) (var "app.toml") = none ∧
-    ((sysConfigDirs (fun _ => none)).find? (fun _ => true)) = some (var "/etc/xdg") := by
+/-- the system directories are consulted whatever the environment: a hit there is never hidden -/
+theorem C18_config_dir_system_dirs_always_searched (env : Env) (ex : Str → Bool) (name d : Str)
+    (hd : d ∈ sysConfigDirs env) (hex : ex (mash d name) = true) :
+    ∃ r, vfsConfigDir env ex name = some r := by
+  cases h : vfsConfigDir env ex name with
+  | some r => exact ⟨r, rfl⟩
+  | none =>
+    have h' := (C18_config_dir_none_iff env ex name).1 h d
+      (by unfold configSearchOrder; exact List.mem_append_right _ hd)
+    rw [hex] at h'
+    cases h'
+
+/-- positive example on the witness environment of the former finding `no_home_hides_system_dirs`
+    (HOME and XDG_CONFIG_HOME both unset): the default system directory is found -/
+theorem C18_example_no_home_finds_system_dir :
+    configDir (fun _ => none) = .err .var ∧
+    vfsConfigDir (fun _ => none) (fun _ => true) (var "app.toml") = some (var "/etc/xdg") := by
   constructor <;> rfl
 
-theorem C18_config_dir_first_hit_full_is_false : ¬ C18_config_dir_first_hit_full := by
-  intro h
-  have h1 := h (fun _ => none) (fun _ => true) (var "app.toml")
-  rw [C18_finding_no_home_hides_system_dirs.1] at h1
-  revert h1
-  decide
+-- non-vacuity / sanity (tests, labelled as such): user directory first, then the list in order
+example : configSearchOrder (fun k => if k = var "HOME" then some (var "/home/u") else
+      if k = var "XDG_CONFIG_DIRS" then some (var "/a::/b") else none) =
+    [var "/home/u/.config", var "/a", var "/b"] := by decide
+example : vfsConfigDir (fun k => if k = var "XDG_CONFIG_DIRS" then some (var "/a:/b") else none)
+    (fun p => p == var "/b/app") (var "app") = some (var "/b") := by decide
 
 /-! ### getrids -/
 /-- `parse::<u32>()`: optional `+`, then one or more ASCII digits, value below 2^32 -/
